@@ -123,8 +123,11 @@ impl<'xml> Deserializer<'xml> {
                     DeEvent::Start(x)
                 }
 
+                // a CDATA section is character data
+                Event::CData(x) => DeEvent::Text(x.escape().map_err(|e| invalid_xml(e.into()))?),
+
                 // ignore the others
-                Event::Comment(_) | Event::CData(_) | Event::Decl(_) | Event::PI(_) | Event::DocType(_) => continue,
+                Event::Comment(_) | Event::Decl(_) | Event::PI(_) | Event::DocType(_) => continue,
             };
             break Ok(de);
         }
@@ -261,21 +264,33 @@ impl<'xml> Deserializer<'xml> {
     /// # Errors
     /// Returns an error if the deserialization fails.
     pub fn text<T>(&mut self, f: impl FnOnce(BytesText<'xml>) -> DeResult<T>) -> DeResult<T> {
-        match self.peek_event()? {
-            DeEvent::Start(_) => {
-                self.consume_peeked();
-                Err(unexpected_start())
-            }
-            DeEvent::End(_) => {
-                f(BytesText::from_escaped("")) //
-            }
-            DeEvent::Text(x) => {
-                self.consume_peeked();
-                f(x)
-            }
-            DeEvent::Eof => {
-                self.consume_peeked();
-                Err(unexpected_eof())
+        // character data may arrive in several pieces (text interrupted by comments, CDATA sections)
+        let mut acc: Option<BytesText<'xml>> = None;
+        loop {
+            match self.peek_event()? {
+                DeEvent::Text(x) => {
+                    self.consume_peeked();
+                    acc = Some(match acc {
+                        None => x,
+                        Some(prev) => {
+                            let mut buf = prev.into_inner().into_owned();
+                            buf.extend_from_slice(&x);
+                            let string = String::from_utf8(buf).map_err(|_| DeError::InvalidContent)?;
+                            BytesText::from_escaped(string)
+                        }
+                    });
+                }
+                DeEvent::Start(_) if acc.is_none() => {
+                    self.consume_peeked();
+                    return Err(unexpected_start());
+                }
+                DeEvent::Eof if acc.is_none() => {
+                    self.consume_peeked();
+                    return Err(unexpected_eof());
+                }
+                DeEvent::Start(_) | DeEvent::End(_) | DeEvent::Eof => {
+                    return f(acc.unwrap_or_else(|| BytesText::from_escaped("")));
+                }
             }
         }
     }
